@@ -643,7 +643,14 @@ class IrToWasmCompiler:
             self.emit(load_op, 0, 0)  # offset, align
         elif tree.name in self.const_opcodes:
             opcode = self.const_opcodes[tree.name]
-            self.emit(opcode, tree.value)
+            value = tree.value
+            if opcode in ("i32.const", "i64.const"):
+                # The immediate is a signed number of 32 or 64 bits:
+                bits = int(opcode[1:3])
+                value &= (1 << bits) - 1
+                if value >> (bits - 1):
+                    value -= 1 << bits
+            self.emit(opcode, value)
             self.stack += 1
         elif tree.name == "LABEL":  # isinstance(tree, ir.LiteralData):
             if tree.value in self.global_labels:
